@@ -4,6 +4,8 @@
 package hlib
 
 import (
+	"runtime"
+	"strings"
 	"sync"
 	"time"
 
@@ -154,4 +156,40 @@ func (g *GateCtl) Log() []string {
 	g.mu.Lock()
 	defer g.mu.Unlock()
 	return append([]string(nil), g.log...)
+}
+
+// ---- cheap goroutine snapshots (one dump, many questions) ----
+
+var dumpBuf = make([]byte, 1<<20)
+var dumpMu sync.Mutex
+
+// GoroutineDump returns the stacks of all goroutines, one string per goroutine.
+func GoroutineDump() []string {
+	dumpMu.Lock()
+	defer dumpMu.Unlock()
+	for {
+		n := runtime.Stack(dumpBuf, true)
+		if n < len(dumpBuf) {
+			return strings.Split(string(dumpBuf[:n]), "\n\n")
+		}
+		dumpBuf = make([]byte, 2*len(dumpBuf))
+	}
+}
+
+// CountIn counts the goroutines of a dump whose stack mentions every given substring.
+func CountIn(dump []string, subs ...string) int {
+	cnt := 0
+	for _, g := range dump {
+		ok := true
+		for _, s := range subs {
+			if !strings.Contains(g, s) {
+				ok = false
+				break
+			}
+		}
+		if ok {
+			cnt++
+		}
+	}
+	return cnt
 }
